@@ -228,8 +228,15 @@ UnspecCon(p, S, c) ==
                                                /\ ~S.sched[c.tasks[j]] /\ S.sched[c.tasks[k]]
          THEN {"ordered-group-skipped-member-in-between"} ELSE {}
     [] c.cls = "ScheduleNTasksInTimeIntervals" ->
-         IF \E t \in SchedOf(S, SeqToSet(c.tasks)) : NumIn(c.intervals, S.s[t], S.e[t]) > 1
-         THEN {"ntasks-in-two-intervals"} ELSE {}
+         (IF \E t \in SchedOf(S, SeqToSet(c.tasks)) : NumIn(c.intervals, S.s[t], S.e[t]) > 1
+          THEN {"ntasks-in-two-intervals"} ELSE {})
+         \cup
+         \* a task that overlaps an interval without lying inside it: the documentation only speaks of
+         \* the tasks "in" the intervals (the implementation keeps the other tasks entirely outside)
+         (IF \E t \in SchedOf(S, SeqToSet(c.tasks)) : \E i \in 1..Len(c.intervals) :
+                /\ ~(S.s[t] >= c.intervals[i][1] /\ S.e[t] <= c.intervals[i][2])
+                /\ S.s[t] < c.intervals[i][2] /\ S.e[t] > c.intervals[i][1]
+          THEN {"ntasks-task-straddles-interval"} ELSE {})
     [] c.cls = "OptionalTasksDependency" ->
          \* docs: implication; docstring: equivalence
          IF S.sched[c.t2] /\ ~S.sched[c.t1] THEN {"dependency-iff-or-implies"} ELSE {}
